@@ -283,3 +283,79 @@ def obligations(ctx):
     out['O6'] = res
     out['trace'] = T
     return out
+
+
+def complete_writes(ctx, rule='C02.complete-writes', traces=None):
+    """every write of the commit (and of file creation) is complete: `write_all` / `write_all_at`, or a `write` whose returned count is looked at.  `write(2)` may transfer
+    fewer bytes than asked without an error; a discarded count leaves a page of which only a prefix reached the file behind a commit that reports success"""
+    from core import ok, bad, floor
+    from facts import callee_of, op_place, strip_generics, last_seg
+    res = []
+    n = 0
+    if traces is None:
+        traces = [commit_trace(ctx)]
+        try:
+            (op,) = ctx.need('OpenOptions::open')
+            traces.append(ctx.trace(op))
+        except Exception:
+            pass
+    seen = set()
+    for T in traces:
+        for e in T.events('W'):
+            if e.get('summary') or e.get('buffered'):
+                continue
+            nd = T.nodes[e['node']]
+            fn, bb = nd.fn, nd.bb
+            if (fn.path, bb) in seen:
+                continue
+            seen.add((fn.path, bb))
+            n += 1
+            t = fn.term(bb)
+            nm = last_seg(strip_generics((callee_of(t) or {}).get('path', '')))
+            if 'all' in nm or nm == 'write_fmt':
+                res.append(ok(rule, '%s at %s writes the whole buffer or fails' % (nm, fn.loc(bb)), sites=1))
+                continue
+            # forward data flow from the call's result: is the count ever an operand of arithmetic / a comparison / another call?
+            derived = {t['dest']['l']}
+            used = False
+            for _ in range(6):
+                grew = False
+                for b2 in fn.reachable_blocks():
+                    for st in fn.blocks[b2]['stmts']:
+                        if st['k'] != 'assign':
+                            continue
+                        rv = st['rv']
+                        ops = [rv.get('op'), rv.get('a'), rv.get('b')] + list(rv.get('ops') or [])
+                        pls = [op_place(o) for o in ops if isinstance(o, dict) and o.get('k') in ('move', 'copy')]
+                        if rv['k'] in ('ref', 'rawptr', 'discr'):
+                            pls.append(rv['p'])
+                        if any(pl is not None and pl['l'] in derived for pl in pls):
+                            if rv['k'] == 'bin' and fn.locals[[pl for pl in pls if pl is not None and pl['l'] in derived][0]['l']]['ty'] == 'usize':
+                                used = True
+                            if st['p']['l'] not in derived:
+                                derived.add(st['p']['l'])
+                                grew = True
+                    t2 = fn.term(b2)
+                    if t2['k'] == 'call' and b2 != bb:
+                        for a in t2['args']:
+                            pl = op_place(a)
+                            if pl is not None and pl['l'] in derived:
+                                c2 = callee_of(t2)
+                                nm2 = last_seg(strip_generics(c2['path'])) if c2 else ''
+                                if fn.locals[pl['l']]['ty'] == 'usize' and nm2 not in ('branch', 'from_residual'):
+                                    used = True
+                                if t2['dest']['l'] not in derived:
+                                    derived.add(t2['dest']['l'])
+                                    grew = True
+                if not grew:
+                    break
+            if used:
+                res.append(ok(rule, '%s at %s: the returned count is examined' % (nm, fn.loc(bb)), sites=1))
+            else:
+                res.append(bad(rule, '%s | partial write not handled (%s)' % (fn.qual, nm),
+                               '%s writes with `%s` at %s and never looks at the number of bytes it reports: a short write (no error) leaves only a prefix of the page in the file, and the '
+                               'commit goes on to publish it' % (fn.qual, nm, fn.loc(bb)), where=fn.loc(bb)))
+    f = floor(rule, 'file writes in the commit and creation traces', n, 2)
+    if f:
+        res.append(f)
+    return res
